@@ -1039,6 +1039,158 @@ cmd_delres(void) {
 
 static coap_oscore_conf_t *make_oscore_conf(const char *confhex, uint64_t start_seq, int who);
 
+/* ---- (D)TLS pre-shared keys (C19) -------------------------------------- */
+#define MAX_PSK 8
+typedef struct pskent_t {
+  int used;
+  char name[64];        /* identity / SNI / hint, as a C string */
+  uint8_t *b1;          /* server: key for identity; SNI: hint; client ih: identity */
+  size_t l1;
+  uint8_t *b2;          /* SNI: key; client ih: key */
+  size_t l2;
+  coap_bin_const_t key; /* what the id callback hands back */
+  coap_dtls_spsk_info_t sinfo;
+  coap_dtls_cpsk_info_t cinfo;
+} pskent_t;
+
+typedef struct psktab_t {
+  pskent_t ids[MAX_PSK], snis[MAX_PSK], ihs[MAX_PSK];
+  uint8_t *hint, *key;
+  size_t hint_len, key_len;
+  char sni[64];
+} psktab_t;
+
+static psktab_t psk_srv[VF_MAX_NODES];
+static psktab_t psk_cli[VF_MAX_NODES][MAX_SESS];
+
+static void
+psk_parse(pskent_t *tab, const char *spec, int fields) {
+  /* namehex:b1hex[:b2hex],...   ("-" = empty) */
+  char *dup = strdup(spec), *save = NULL, *it;
+  int n = 0;
+  for (it = strtok_r(dup, ",", &save); it && n < MAX_PSK; it = strtok_r(NULL, ",", &save)) {
+    char *c1 = strchr(it, ':'), *c2 = NULL;
+    size_t nl;
+    uint8_t *nm;
+    if (!c1)
+      continue;
+    *c1++ = 0;
+    if (fields == 3 && (c2 = strchr(c1, ':')))
+      *c2++ = 0;
+    nm = vf_unhex(it, strlen(it), &nl);
+    snprintf(tab[n].name, sizeof(tab[n].name), "%.*s", (int)nl, (const char *)nm);
+    free(nm);
+    tab[n].b1 = vf_unhex(c1, strlen(c1), &tab[n].l1);
+    if (c2)
+      tab[n].b2 = vf_unhex(c2, strlen(c2), &tab[n].l2);
+    tab[n].used = 1;
+    n++;
+  }
+  free(dup);
+}
+
+static const coap_bin_const_t *
+psk_id_cb(coap_bin_const_t *identity, coap_session_t *session, void *arg) {
+  psktab_t *t = (psktab_t *)arg;
+  int i;
+  (void)session;
+  ev_begin("psk_id");
+  ev_hex("id", identity->s, identity->length);
+  for (i = 0; i < MAX_PSK; i++)
+    if (t->ids[i].used && strlen(t->ids[i].name) == identity->length &&
+        !memcmp(t->ids[i].name, identity->s, identity->length)) {
+      t->ids[i].key.s = t->ids[i].b1;
+      t->ids[i].key.length = t->ids[i].l1;
+      ev_int("known", 1);
+      ev_end();
+      return &t->ids[i].key;
+    }
+  ev_int("known", 0);
+  ev_end();
+  return NULL;
+}
+
+static const coap_dtls_spsk_info_t *
+psk_sni_cb(const char *sni, coap_session_t *session, void *arg) {
+  psktab_t *t = (psktab_t *)arg;
+  int i;
+  (void)session;
+  ev_begin("psk_sni");
+  ev_str("sni", sni);
+  for (i = 0; i < MAX_PSK; i++)
+    if (t->snis[i].used && !strcasecmp(t->snis[i].name, sni)) {
+      t->snis[i].sinfo.hint.s = t->snis[i].b1;
+      t->snis[i].sinfo.hint.length = t->snis[i].l1;
+      t->snis[i].sinfo.key.s = t->snis[i].b2;
+      t->snis[i].sinfo.key.length = t->snis[i].l2;
+      ev_int("known", 1);
+      ev_end();
+      return &t->snis[i].sinfo;
+    }
+  ev_int("known", 0);
+  ev_end();
+  return NULL;
+}
+
+static const coap_dtls_cpsk_info_t *
+psk_ih_cb(coap_str_const_t *hint, coap_session_t *session, void *arg) {
+  psktab_t *t = (psktab_t *)arg;
+  int i;
+  (void)session;
+  ev_begin("psk_ih");
+  ev_hex("hint", hint->s, hint->length);
+  for (i = 0; i < MAX_PSK; i++)
+    if (t->ihs[i].used && strlen(t->ihs[i].name) == hint->length &&
+        !memcmp(t->ihs[i].name, hint->s, hint->length)) {
+      t->ihs[i].cinfo.identity.s = t->ihs[i].b1;
+      t->ihs[i].cinfo.identity.length = t->ihs[i].l1;
+      t->ihs[i].cinfo.key.s = t->ihs[i].b2;
+      t->ihs[i].cinfo.key.length = t->ihs[i].l2;
+      ev_int("known", 1);
+      ev_end();
+      return &t->ihs[i].cinfo;
+    }
+  ev_int("known", 0);
+  ev_end();
+  return NULL;
+}
+
+static void
+cmd_psk(void) {
+  /* psk <n> hint=<hex> key=<hex> [ids=idhex:keyhex,...] [snis=namehex:hinthex:keyhex,...]
+   * server side: coap_context_set_psk2(); must come before the (D)TLS endpoint */
+  int n = atoi(tok[1]);
+  node_t *nd = &nodes[n];
+  psktab_t *t = &psk_srv[n];
+  coap_dtls_spsk_t sp;
+  const char *v;
+  int r;
+  memset(&sp, 0, sizeof(sp));
+  sp.version = COAP_DTLS_SPSK_SETUP_VERSION;
+  v = kv("hint", "-");
+  t->hint = vf_unhex(v, strlen(v), &t->hint_len);
+  v = kv("key", "-");
+  t->key = vf_unhex(v, strlen(v), &t->key_len);
+  sp.psk_info.hint.s = t->hint;
+  sp.psk_info.hint.length = t->hint_len;
+  sp.psk_info.key.s = t->key;
+  sp.psk_info.key.length = t->key_len;
+  if ((v = kv("ids", NULL))) {
+    psk_parse(t->ids, v, 2);
+    sp.validate_id_call_back = psk_id_cb;
+    sp.id_call_back_arg = t;
+  }
+  if ((v = kv("snis", NULL))) {
+    psk_parse(t->snis, v, 3);
+    sp.validate_sni_call_back = psk_sni_cb;
+    sp.sni_call_back_arg = t;
+  }
+  r = coap_context_set_psk2(nd->ctx, &sp);
+  ev_begin("psk");
+  ev_int("ok", r);
+  ev_end();
+}
+
 static void
 cmd_sess(void) {
   /* sess <n> <sid> <proto> <remote> [local=addr] [ack_timeout_ms=] [arf_milli=] [max_retransmit=]
@@ -1056,12 +1208,45 @@ cmd_sess(void) {
     ev_end();
     return;
   }
-  if ((v = kv("psk_id", NULL))) {
-    size_t kl;
+  if ((v = kv("psk_id", NULL)) && (kv("sni", NULL) || kv("ih", NULL)) && sid >= 0 &&
+      sid < MAX_SESS) {
+    /* psk_id=<hex> psk_key=<hex> [sni=<hex>] [ih=hinthex:idhex:keyhex,...]  (psk2 form) */
+    psktab_t *t = &psk_cli[atoi(tok[1])][sid];
+    coap_dtls_cpsk_t cp;
+    const char *x;
+    memset(&cp, 0, sizeof(cp));
+    cp.version = COAP_DTLS_CPSK_SETUP_VERSION;
+    t->hint = vf_unhex(v, strlen(v), &t->hint_len); /* identity */
+    x = kv("psk_key", "-");
+    t->key = vf_unhex(x, strlen(x), &t->key_len);
+    cp.psk_info.identity.s = t->hint;
+    cp.psk_info.identity.length = t->hint_len;
+    cp.psk_info.key.s = t->key;
+    cp.psk_info.key.length = t->key_len;
+    if ((x = kv("sni", NULL)) && strcmp(x, "-")) {
+      size_t sl;
+      uint8_t *sn = vf_unhex(x, strlen(x), &sl);
+      snprintf(t->sni, sizeof(t->sni), "%.*s", (int)sl, (const char *)sn);
+      free(sn);
+      cp.client_sni = t->sni;
+    }
+    if ((x = kv("ih", NULL))) {
+      psk_parse(t->ihs, x, 3);
+      cp.validate_ih_call_back = psk_ih_cb;
+      cp.ih_call_back_arg = t;
+    }
+    s = coap_new_client_session_psk2(nd->ctx, l ? &local : NULL, &remote, proto, &cp);
+  } else if (v) {
+    /* psk_id=<hex identity> psk_key=<hex> */
+    size_t kl, il;
     uint8_t *key = vf_unhex(kv("psk_key", "-"), strlen(kv("psk_key", "-")), &kl);
-    s = coap_new_client_session_psk(nd->ctx, l ? &local : NULL, &remote, proto, v, key,
+    uint8_t *id = vf_unhex(v, strlen(v), &il);
+    char idz[128];
+    snprintf(idz, sizeof(idz), "%.*s", (int)il, (const char *)id);
+    s = coap_new_client_session_psk(nd->ctx, l ? &local : NULL, &remote, proto, idz, key,
                                     (unsigned)kl);
     free(key);
+    free(id);
   } else if ((v = kv("oscore", NULL))) {
     coap_oscore_conf_t *c = make_oscore_conf(v, (uint64_t)kvi("start_seq", 0), atoi(tok[1]));
     s = c ? coap_new_client_session_oscore(nd->ctx, l ? &local : NULL, &remote, proto, c) : NULL;
@@ -1612,7 +1797,7 @@ static void
 run_command(void) {
   const char *c = tok[0];
   static const char *noded[] = {"node", "ctx", "ep", "res", "delres", "sess", "send", "notify",
-                                "prepare", "io", "peek", "peekobs", "persist", "persist_stop", "urihelpers", "oscore_server", "peekosc", "verdict", "cancelobs", "release",
+                                "prepare", "io", "peek", "peekobs", "psk", "persist", "persist_stop", "urihelpers", "oscore_server", "peekosc", "verdict", "cancelobs", "release",
                                 "disconnect", "appref", "apprelease", "freenode", NULL};
   int i;
   for (i = 0; noded[i]; i++)
@@ -1658,6 +1843,8 @@ run_command(void) {
     cmd_peek();
   else if (!strcmp(c, "peekobs"))
     cmd_peekobs();
+  else if (!strcmp(c, "psk"))
+    cmd_psk();
   else if (!strcmp(c, "persist"))
     cmd_persist();
   else if (!strcmp(c, "persist_stop"))
@@ -1790,6 +1977,7 @@ main(void) {
   if (__sanitizer_set_death_callback)
     __sanitizer_set_death_callback(vf_flush_on_death);
   coap_startup();
+  vf_tls_virtual_clock();
   coap_set_prng(vf_prng);
   coap_set_show_pdu_output(0);
   coap_set_log_handler(null_log);
